@@ -21,6 +21,8 @@ def main(tier, replay=None):
     fams = [dict(scn="c17", name="inject-" + f, opts=["family=" + f] + th, bounds="0,0,0,0", total=0, deadline=1500) for f in ("lists", "fields", "senders", "resent")]
     fams.append(dict(scn="c17", name="inject-lists-QMAILINJECT-cfi", opts=["family=fields", "qmailinject=cfi"], bounds="0,0,0,0", total=0))
     fams.append(dict(scn="c17", name="inject-control-file-errors", opts=["family=senders"], bounds="0,1,0,0", total=1, deadline=1500))
+    # the SMTP side at process level: a recipient whose local part holds a quoted CR, the session arriving in two pieces cut at every byte
+    fams.append(dict(scn="c07", name="smtpd-addresses-arriving-in-two-pieces", opts=["family=shortreads"], bounds="0,1,0,0", total=1, deadline=900))
     run_families(res, "C17", tier, fams)
     res.rule = ("round trips: every local part of length <=4 (5) over 23 bytes {()<>@,;:\\\\\".[] SP CR TAB 0x80 0xFF a B 1 + -} with domains h.dom and "
                 "[1.2.3.4]: quote2() -> To: field -> token822_parse/addrlist/unquote, and addrmangle() (qmail-remote) -> MAIL FROM:<...> -> "
@@ -30,7 +32,8 @@ def main(tier, replay=None):
                 "folding, missing comma without and with a comment in the gap) whose mailboxes are known by construction, in To/cc/Bcc, with -h/-a/-H/-A and arguments, -f sender "
                 "forms, QMAILINJECT letters; the envelope must be those mailboxes after default-host/domain/plus rewriting, Bcc and "
                 "Return-Path gone, and the rewritten header injected again must give the same To+Cc addresses; resent: every one and every two of the 8 Resent- fields before/after "
-                "ordinary To/Cc/Bcc fields: the recipients are then exactly those of Resent-To/Cc/Bcc")
+                "ordinary To/Cc/Bcc fields: the recipients are then exactly those of Resent-To/Cc/Bcc; the real qmail-smtpd process with a recipient whose local part holds a quoted CR, "
+                "the session cut in two at every byte: the queued recipient is that address")
     res.assumptions = ["NUL and LF are excluded from local parts (property text)", "virtual kernel (appendix A); queue program is a recording stand-in"]
     res.require_nonzero("evaluations", "local_parts_needing_quotes", "injections", "reparses")
     lib_conformance(res, rd, srca, ['bytes', 'ctl'], tier, asan=True)
